@@ -18,6 +18,7 @@ This module is **private, for internal use by SQLAlchemy**.
 
 from __future__ import annotations
 
+import math
 from typing import Type
 
 from . import exc as orm_exc
@@ -286,7 +287,6 @@ class _EvaluatorCompiler:
     visit_add_binary_op = _straight_evaluate_numeric_only
     visit_mul_binary_op = _straight_evaluate_numeric_only
     visit_sub_binary_op = _straight_evaluate_numeric_only
-    visit_mod_binary_op = _straight_evaluate_numeric_only
     visit_truediv_binary_op = _straight_evaluate_numeric_only
     visit_lt_binary_op = _straight_evaluate
     visit_le_binary_op = _straight_evaluate
@@ -294,6 +294,24 @@ class _EvaluatorCompiler:
     visit_gt_binary_op = _straight_evaluate
     visit_ge_binary_op = _straight_evaluate
     visit_eq_binary_op = _straight_evaluate
+
+    def visit_mod_binary_op(self, operator, eval_left, eval_right, clause):
+        def sql_mod(a, b):
+            # the SQL remainder takes the sign of the dividend, whereas
+            # Python's % takes the sign of the divisor
+            if isinstance(a, int) and isinstance(b, int):
+                remainder = abs(a) % abs(b)
+                return -remainder if a < 0 else remainder
+            elif isinstance(a, float) or isinstance(b, float):
+                return math.fmod(a, b)
+            else:
+                return a % b
+
+        # performs the datatype check
+        self._straight_evaluate_numeric_only(
+            operator, eval_left, eval_right, clause
+        )
+        return self._straight_evaluate(sql_mod, eval_left, eval_right, clause)
 
     def visit_in_op_binary_op(self, operator, eval_left, eval_right, clause):
         return self._straight_evaluate(
